@@ -831,6 +831,59 @@ func runGenCase(gc *genCase, keepDir *string) *genOutcome {
 		}
 	}
 
+	// C17: the text does not depend on where the module lives, on the working
+	// directory cff is started from, or on how OUT is spelled
+	if *flagProp == "C17" && !anyReject && len(oc.findings) == 0 {
+		other := filepath.Join(dir, "elsewhere", "a-much-deeper", "checkout", "vcase")
+		if err := copyTree(mod, other); err == nil {
+			opdir := filepath.Join(other, "p")
+			for _, f := range gc.pkg.Files {
+				os.Remove(filepath.Join(opdir, genName(f.Name)))
+			}
+			if o, c, _ := run(other, 120*time.Second, *flagCff, gc.cffArgs()...); c != 0 {
+				add("C17", "cff failed on a copy of the module at another path although it succeeded before:\n%s", tailStr(o, 800))
+			} else {
+				og := readDirGo(opdir)
+				for n, want := range gens {
+					if og[n] != want {
+						add("C17", "the same module at another absolute path produced different text for %s:\n%s", n, firstDiff(want, og[n]))
+					}
+				}
+			}
+			os.RemoveAll(filepath.Join(dir, "elsewhere"))
+		}
+		// started from inside the package directory, with the pattern "."
+		for _, f := range gc.pkg.Files {
+			os.Remove(filepath.Join(pdir, genName(f.Name)))
+		}
+		inArgs := gc.cffArgs()
+		inArgs[len(inArgs)-1] = "."
+		if o, c, _ := run(pdir, 120*time.Second, *flagCff, inArgs...); c != 0 {
+			add("C17", "cff . (started inside the package directory) failed although cff <import path> succeeded:\n%s", tailStr(o, 800))
+		} else {
+			og := readDirGo(pdir)
+			for n, want := range gens {
+				if og[n] != want {
+					add("C17", "cff started inside the package directory produced different text for %s:\n%s", n, firstDiff(want, og[n]))
+				}
+			}
+		}
+		// a relative OUT
+		if gc.mode == "base" && len(gc.pkg.Files) > 0 {
+			f := gc.pkg.Files[0]
+			rel := filepath.Join("p", "zz_rel_out.go")
+			if _, c, _ := run(mod, 120*time.Second, *flagCff, gc.cffArgs("-file="+f.Name+"="+rel)...); c == 0 {
+				b, err := os.ReadFile(filepath.Join(mod, rel))
+				if err != nil {
+					add("C16", "cff -file=%s=%s did not write the relative OUT path", f.Name, rel)
+				} else if string(b) != gens[genName(f.Name)] {
+					add("C17", "cff -file=%s=<relative OUT> produced different text than the default output:\n%s", f.Name, firstDiff(gens[genName(f.Name)], string(b)))
+				}
+				os.Remove(filepath.Join(mod, rel))
+			}
+		}
+	}
+
 	// C20a: source-map output is base output up to comments
 	if *flagProp == "C20" && !anyReject {
 		other := *gc
